@@ -51,6 +51,7 @@ func main() {
 	bounds := flag.String("bounds", "", "name=value,... overrides of vBound")
 	list := flag.Bool("list", false, "list harnesses")
 	extra := flag.String("pkgs", "", "extra package patterns to load, comma separated")
+	flag.BoolVar(&slowLog, "slowlog", false, "report slow solver queries")
 	flag.Parse()
 
 	for _, kv := range strings.Split(*bounds, ",") {
@@ -196,7 +197,7 @@ func main() {
 	}
 	output := &Output{Tier: tier, LoadS: loadS, Solver: *solverCmd, Dropped: dropped}
 	for _, h := range hs {
-		base := &State{heap: map[int]*Obj{}, decided: map[int]bool{}, globals: map[*ssa.Global]int{}, inited: map[*ssa.Package]bool{}, counters: map[string]int{}, onceDone: map[string]bool{}, ghost: map[string]Value{}, unwind: e.cfg.Unwind}
+		base := &State{heap: map[int]*Obj{}, decided: map[int]bool{}, eqc: map[int]*Term{}, globals: map[*ssa.Global]int{}, inited: map[*ssa.Package]bool{}, counters: map[string]int{}, onceDone: map[string]bool{}, ghost: map[string]Value{}, unwind: e.cfg.Unwind}
 		r := e.RunHarness(h, base)
 		r.finalize()
 		output.Harnesses = append(output.Harnesses, r)
